@@ -304,6 +304,15 @@ CLAIMED = {
 PENDING = 'not yet claimed: model/theorems under construction (DESIGN.md section 8 build order); no check registered'
 
 
+def suites_note(pid):
+    p = Path(__file__).with_name('suites_doc.json')
+    if not p.exists():
+        return ''
+    rows = json.loads(p.read_text()).get(pid, [])
+    return ' Suites run by the check: ' + '; '.join(
+        f"{r['name']} ({'model evaluated on every case' if r['tied_to_model'] else 'runtime oracle only'})" for r in rows) + '.'
+
+
 def main():
     ids = [json.loads(l)['id'] for l in (VERIF / 'properties.jsonl').read_text().splitlines() if l.strip()]
     checks, na = [], []
@@ -320,7 +329,7 @@ def main():
             replay_cmd_template=f'./check {pid} --replay {{path}}',
             engine='coq-model',
             level_claimed=dict(category=c['category'], text=c['text'], design_ref=c['ref']),
-            level_note=c['note'] + ((' ' + c['note2']) if 'note2' in c else ''),
+            level_note=c['note'] + ((' ' + c['note2']) if 'note2' in c else '') + suites_note(pid),
             technique=c['technique'],
         ))
     claimed = sorted(CLAIMED)
